@@ -63,6 +63,38 @@ func checkUVRand(c uvCase) *vk.Failure {
 		fs.add(fail(s, "rand-cdf-panics", c, "CDF panics at a value returned by Rand: %s", res.Text))
 		return fs.pick(c.S1)
 	}
+	if s.discrete {
+		// Every support point k with n*P(X=k) >= 30 must have been drawn at least
+		// once (it is missed with probability <= exp(-30) < 1e-13).
+		if pr, ok := d.(prober); ok {
+			seen := map[float64]bool{}
+			for _, x := range xs {
+				seen[x] = true
+			}
+			klo, khi := latticeOf(s, p)
+			for k := klo; k <= khi; k++ {
+				if q := pr.Prob(k); float64(n)*q >= 30 && !seen[k] {
+					fs.add(fail(s, "rand-misses-support-point", c, "%d draws never returned %v although Prob(%v)=%v (expected count %.1f)", n, k, k, q, float64(n)*q))
+					break
+				}
+			}
+		}
+		// The Poisson sampler switches algorithm at Lambda = 10, where P(X=0) is
+		// 4.5e-5: too small for the test above with n draws. Draw until the
+		// expected number of zeros is 30.
+		if lam := p[0]; s.name == "Poisson" && lam >= 10 && lam <= 11.5 {
+			m := int(math.Ceil(30 * math.Exp(lam)))
+			zeros := 0
+			for i := 0; i < m; i++ {
+				if r.Rand() == 0 {
+					zeros++
+				}
+			}
+			if zeros == 0 {
+				fs.add(fail(s, "rand-misses-support-point", c, "%d draws never returned 0 although Prob(0)=%v (expected count %.1f)", m, math.Exp(-lam), float64(m)*math.Exp(-lam)))
+			}
+		}
+	}
 	if bound := dkwBound(n); !(dist <= bound) {
 		fs.add(fail(s, "rand-follows-cdf", c, "Kolmogorov distance between %d draws and CDF is %.4f at x=%v (DKW bound for alpha=1e-12: %.4f)", n, dist, at, bound))
 	}
